@@ -258,7 +258,8 @@ def run(ctx):
             check_result(ctx, c, entry, opts, as_ir, m2, wf_batch, stats)
 
     n_dag = 90 if quick else 700
-    for c in K.dag_stream(rng, n_dag, overridable_every=3, start=7000):
+    import itertools
+    for c in itertools.chain(K.corpus_stream(rng, "C04"), K.dag_stream(rng, n_dag, overridable_every=3, start=7000)):
         if not isinstance(c, G.Case):
             discards["generator-error: " + c[1][:60]] += 1
             continue
